@@ -22,9 +22,9 @@ RULE = ('inputs: raw random bytes; every truncation and seeded small mutations (
         'type (the parser gets past the fixed header); distinct = distinct (mode, input bytes).')
 ASSUMPTIONS = [
     'termination / linear time is checked as an affine budget of executed line events inside message.py and '
-    'crypto.py (sys.settrace): lines <= 600 + 30*len outside PayloadDELETE.parse and <= 8 + 3.2*65535 per call '
-    'inside it (its SPI-count loop is bounded by a 16-bit field); a super-linear parser that stays inside the '
-    'budget on inputs <= 1500 bytes is not detected',
+    'crypto.py (sys.settrace): lines <= 600 + 30*len, every function included (counts carried in the data, such as the '
+    'number of SPIs of a DELETE payload, must be covered by octets actually present); a super-linear parser that stays '
+    'inside the budget on inputs <= 1500 bytes is not detected',
     'protocol-error family = subclasses of message.IkeSaError',
     'harness-side encryption of test inputs uses AES from `cryptography`, cross-checked at start-up against the '
     'pure-Python FIPS-197 reference',
@@ -91,9 +91,8 @@ def traced_parse(data, header_only, crypto):
         code = frame.f_code
         if code.co_filename not in _FILES:
             return None
-        if code.co_name == 'parse' and code.co_qualname == 'PayloadDELETE.parse':
-            cnt[2] += 1
-            return local_delete
+        # (until F28 was repaired PayloadDELETE.parse had an allowance of its own, per call, for its loop over a 16-bit count:
+        # that allowance was what hid F28 - many small DELETE payloads in one datagram, each claiming 65535 SPIs)
         return local
 
     exc = None
@@ -296,6 +295,41 @@ def w_grid(task):
     return st
 
 
+def repeated_inputs():
+    """one small payload whose body carries a count, repeated until the datagram is full: the cost of a count must be covered
+    by octets that are present, otherwise many such payloads multiply it (F28).  Every count-bearing field of section 3"""
+    out = []
+    units = {
+        'DELETE:spi-size-0': (42, struct.pack('>BBH', 3, 0, 65535)),
+        'DELETE:spi-size-4': (42, struct.pack('>BBH', 3, 4, 65535)),
+        'DELETE:spi-size-255': (42, struct.pack('>BBH', 1, 255, 65535)),
+        'SA:proposal-transform-count': (33, struct.pack('>BBHBBBB', 0, 0, 8, 1, 3, 0, 255)),
+        'SA:proposal-spi-size': (33, struct.pack('>BBHBBBB', 0, 0, 8, 1, 3, 255, 1)),
+        'TS:selector-count': (44, struct.pack('>BBBB', 255, 0, 0, 0)),
+        'NOTIFY:spi-size': (41, struct.pack('>BBH', 3, 255, 16384)),
+        'KE:empty': (34, struct.pack('>HH', 19, 0)),
+        'unknown:non-critical': (200, b'\x00\x00\x00\x00'),
+    }
+    for name, (t, body) in units.items():
+        unit_len = 4 + len(body)
+        for total in (512, 1500, 4068):
+            n = total // unit_len
+            chain = b''.join(struct.pack('>BBH', t if i + 1 < n else 0, 0, unit_len) + body for i in range(n))
+            out.append(('repeated:' + name, t, chain))
+    return out
+
+
+def w_repeated(task):
+    ks, = task
+    st = Stats()
+    for level, first, chain in repeated_inputs():
+        st.klass(level)
+        fails = check_all_modes(wrap_clear(first, chain), ks, st, modes=('full', 'crypto'))
+        fails += check_one(wrap_inner(first, chain, ks), 'crypto', ks, st)
+        st.failures += _known_split('C06', st, fails)
+    return st
+
+
 def w_trunc(task):
     ks, = task
     st = Stats()
@@ -405,6 +439,7 @@ def run(ctx):
         tasks.append(('grid', (s, n_grid_shards, s % 3)))
     for ks in range(3):
         tasks.append(('trunc', (ks,)))
+        tasks.append(('repeated', (ks,)))
     per = 3000 if quick else 60000
     reps = 1 if quick else 4
     for r in range(reps):
@@ -420,14 +455,14 @@ def run(ctx):
     ctx.extra['grid_exhaustive'] = True
     ctx.extra['max_lines_per_byte_observed'] = round(mr, 2)
     ctx.extra['max_lines_observed'] = ml
-    ctx.extra['budget'] = f'{A_CONST}+{B_PER_BYTE}*len (+{DELETE_PER_CALL} per PayloadDELETE.parse call)'
+    ctx.extra['budget'] = f'{A_CONST}+{B_PER_BYTE}*len executed lines in message.py + crypto.py'
     if not quick:
         fuzz_stage(ctx)
 
 
 def _dispatch(t):
     kind, arg = t
-    return {'grid': w_grid, 'trunc': w_trunc, 'hyp': w_hyp}[kind](arg)
+    return {'grid': w_grid, 'trunc': w_trunc, 'hyp': w_hyp, 'repeated': w_repeated}[kind](arg)
 
 
 # ---- coverage-guided stage (thorough) -----------------------------------------------------------
